@@ -183,7 +183,15 @@ func smtFaults() []smtFault {
 				p.IssuerData.State.RootOfRoots = nil
 			}
 		}},
-		{name: "state-nil", apply: func(s *verifySetup, p *verifiable.Iden3SparseMerkleTreeProof, res *resolverCfg, r *Rng) { p.IssuerData.State.Value = nil }},
+		{name: "claims-root-omitted-state-consistent-with-that", apply: func(s *verifySetup, p *verifiable.Iden3SparseMerkleTreeProof, res *resolverCfg, r *Rng) {
+			p.IssuerData.State.ClaimsTreeRoot = nil
+			st, _ := poseidon.Hash([]*big.Int{big.NewInt(0), s.is.revs.Root().BigInt(), s.is.roots.Root().BigInt()})
+			p.IssuerData.State.Value = hexOfInt(st)
+			res.mode = "published"
+		}},
+		{name: "state-nil", apply: func(s *verifySetup, p *verifiable.Iden3SparseMerkleTreeProof, res *resolverCfg, r *Rng) {
+			p.IssuerData.State.Value = nil
+		}},
 		{name: "claims-root-nil", apply: func(s *verifySetup, p *verifiable.Iden3SparseMerkleTreeProof, res *resolverCfg, r *Rng) {
 			p.IssuerData.State.ClaimsTreeRoot = nil
 		}},
@@ -191,15 +199,27 @@ func smtFaults() []smtFault {
 			p.IssuerData.ID = NewIssuer(r, 0).did.String()
 			res.mode = "unpublished"
 		}},
-		{name: "did-malformed", apply: func(s *verifySetup, p *verifiable.Iden3SparseMerkleTreeProof, res *resolverCfg, r *Rng) { p.IssuerData.ID = "did:" }},
-		{name: "resolver-unpublished", apply: func(s *verifySetup, p *verifiable.Iden3SparseMerkleTreeProof, res *resolverCfg, r *Rng) { res.mode = "unpublished" }},
-		{name: "resolver-published-nil", apply: func(s *verifySetup, p *verifiable.Iden3SparseMerkleTreeProof, res *resolverCfg, r *Rng) { res.mode = "nil" }},
-		{name: "resolver-error", apply: func(s *verifySetup, p *verifiable.Iden3SparseMerkleTreeProof, res *resolverCfg, r *Rng) { res.mode = "error" }},
-		{name: "resolver-no-state-info", apply: func(s *verifySetup, p *verifiable.Iden3SparseMerkleTreeProof, res *resolverCfg, r *Rng) { res.mode = "noinfo" }},
+		{name: "did-malformed", apply: func(s *verifySetup, p *verifiable.Iden3SparseMerkleTreeProof, res *resolverCfg, r *Rng) {
+			p.IssuerData.ID = "did:"
+		}},
+		{name: "resolver-unpublished", apply: func(s *verifySetup, p *verifiable.Iden3SparseMerkleTreeProof, res *resolverCfg, r *Rng) {
+			res.mode = "unpublished"
+		}},
+		{name: "resolver-published-nil", apply: func(s *verifySetup, p *verifiable.Iden3SparseMerkleTreeProof, res *resolverCfg, r *Rng) {
+			res.mode = "nil"
+		}},
+		{name: "resolver-error", apply: func(s *verifySetup, p *verifiable.Iden3SparseMerkleTreeProof, res *resolverCfg, r *Rng) {
+			res.mode = "error"
+		}},
+		{name: "resolver-no-state-info", apply: func(s *verifySetup, p *verifiable.Iden3SparseMerkleTreeProof, res *resolverCfg, r *Rng) {
+			res.mode = "noinfo"
+		}},
 	}
 }
 
-func nil2opts() *verifiable.CoreClaimOptions { return &verifiable.CoreClaimOptions{RevNonce: 3, SubjectPosition: "index"} }
+func nil2opts() *verifiable.CoreClaimOptions {
+	return &verifiable.CoreClaimOptions{RevNonce: 3, SubjectPosition: "index"}
+}
 
 func emitSMT(out *Out, r *Rng, f smtFault, nclaims int) {
 	s := newVerifySetup(r, false, 0)
